@@ -12,6 +12,7 @@ func All() map[string]core.Prop {
 		"C05": C05{},
 		"C06": C06{},
 		"C07": C07{},
+		"C11": C11{},
 		"C13": C13{},
 		"C15": C15{},
 		"C16": C16{},
